@@ -242,7 +242,9 @@ func (c *compiled) zoneExcluded(qname string) bool {
 		return false
 	}
 	for _, z := range c.excludeZones {
-		if qname == z {
+		// Every name lies in the root zone; "."+z below would be ".." and
+		// match nothing.
+		if qname == z || z == "." {
 			return true
 		}
 		// z always ends with "." (FQDN'd at compile time), so
